@@ -20,3 +20,11 @@ package memkm
 //@   axioms bump_changes
 //@   atcall GenerateSigningKey requires[C10,C12] p1 == bumpOf(durPrimary)
 //@   ensures[C10,C12] err == nil ==> result0 == bumpOf(durPrimary) && result0 != durPrimary
+
+// C12 (an existing key is only replaced with overwrite permission): the guard that precedes the creation of the root
+// key and of the first signing key refuses a name that already has a key, unless --overwrite is given (and nothing
+// else, --keep_going included, waives it).
+//@ func (*T).keyExists
+//@   requires k != nil && k.Signer != nil
+//@   modifies *
+//@   ensures[C12] result == nil && !allowOverwrite(ctx) ==> !has(k.Signer.Keys, keyVersionName)
